@@ -223,7 +223,7 @@ def _enum_eq_result(body, t, vf):
     return None
 
 
-def explore(body, start, facts=None, removed_edges=(), removed_blocks=(), learn=True, limit=50000):
+def explore(body, start, facts=None, removed_edges=(), removed_blocks=(), learn=True, limit=50000, assume=None):
     """Blocks reachable from `start` on paths consistent with
        * `facts`: {place_key: variant} known on entry (and, if `learn`, learnt at discriminant
          switches on the way), and
@@ -280,6 +280,9 @@ def explore(body, start, facts=None, removed_edges=(), removed_blocks=(), learn=
         if t["k"] == "call":
             l = t["dest"]["l"]
             r = _enum_eq_result(body, t, vf) if vf else None
+            if assume and b in assume:
+                # hypothesis: the bool returned by the call in this block (`explore(.., assume={call_block: True})`)
+                r = assume[b]
             for k in [k for k in vf if k[0] == l]:
                 del vf[k]
             bf.pop(l, None)
